@@ -35,6 +35,9 @@ func (i *Index) NumRefs() int {
 // ReferenceStats returns the index statistics for the given reference and true
 // if the statistics are valid.
 func (i *Index) ReferenceStats(id int) (stats index.ReferenceStats, ok bool) {
+	if id < 0 || id >= len(i.idx.Refs) {
+		return index.ReferenceStats{}, false
+	}
 	s := i.idx.Refs[id].Stats
 	if s == nil {
 		return index.ReferenceStats{}, false
